@@ -45,6 +45,33 @@ CHECKS = {
             "tree widths of the case list; run length <= 7 metaepochs"),
 }
 
+CHECKS.update({
+    "C01": ("Bit-precise float64 kernel lemmas on the real code (ArithmeticCrossover children, LHS/Sobol affine scaling, rejection sampling) over a box catalogue with symbolic "
+            "genomes and draws; composed SEA/GA/DE engine steps with repair/crossover kernels replaced by their proven contracts: every logged objective argument and every "
+            "returned genome in the box; the box handed to cma / scipy is the (symbolic) problem box and x0 the seed; end to end on real trees every logged point, stored genome, seed.",
+            "box catalogue, d=1 for kernels, n<=4; apply_bounds contract from C17; library engines stay inside the box they are given (documented contract)"),
+    "C02": ("Uninterpreted objective F: after the real update_genome/evaluate, every operator and every SEA/GA/DE engine step, CMA/local wrapping, each returned individual "
+            "carries F(its own genome) (bitwise), exactly the changed rows are evaluated once, parents and their arrays are untouched (frame), histories are append-only.",
+            "n<=4, d<=2, one step; F deterministic, non-NaN, blind to the sign of zero; symbolic*symbolic products abstracted; apply_bounds by contract"),
+    "C09": ("Real FarEnough / NBC_FarEnough on symbolic candidates, sibling populations and activity flags (reals): kept iff strictly farther than the threshold from the current mean "
+            "of every considered sibling, for norms 1/2/inf; deme.centroid == mean(current population) after every real metaepoch of every engine class under all schedules.",
+            "profile real (no rounding); <=2 candidates, <=2 siblings, d<=2; MahalanobisFarEnough outside"),
+    "C10": ("Real DemeLimit, LevelLimit, SkipSameSprout, BestPerDeme, NBC_Generator and composed get_seeds on symbolic candidate sets (fitness with ties, both directions, "
+            "symbolic occupancy): only remove, keep the best, exact counts, free slots filled when distinct, isclose duplicates.",
+            "profile real; candidate sets within the stated sizes"),
+    "C13": ("Twin execution of the same real component on (f, maximize) and (-f, minimize) inside one path exploration: ordering, max/sorted, topk, tournament, (mu+k) selection, "
+            "DE replacement, NBC, DemeLimit, LevelLimit, BestPerDeme, best-individual queries, R5S, and the values handed to cma.tell / scipy.minimize are identical.",
+            "profile real; n 3-4 (R5S 6); distinct fitness where numpy's argsort tie order would matter; whole-run twin clause outside"),
+    "C15": ("Real NearestBetterClustering on symbolic populations (genomes, fitness with ties, factor, truncation, direction) against the relational definition: truncation keeps the best, "
+            "every recorded distance is the distance to the nearest strictly better individual (tied-with-best -> best), result = best + {d_i > factor*mean}; "
+            "permutation / translation / scaling invariance; node-id collisions hunted on real float64 arrays closer than the printed precision.",
+            "profile real; n<=3 (thorough 4), d=1 (d=2 soft/optional: NRA)"),
+    "C20": ("Real format_deme / tree() / summary() on constructed trees with symbolic float64 fitness and symbolic counters (float->text as opaque tokens): one line per displayed deme with "
+            "its own counter and best, *** iff deme best == global best, totals / per-level sums / counts; every accessor called twice after every metaepoch of bounded real runs: "
+            "no evaluation, no state change, same answer.",
+            "trees of <=4 demes, 3 levels; digits of printed floats outside"),
+})
+
 NOT_APPLICABLE = {
     "C14": "Reproducibility is a statement about the bit streams of numpy's MT19937, Python's random, scipy's samplers and cma's internal RNG use across processes and PYTHONHASHSEED; none of that code is encodable, and with RNGs stubbed as uninterpreted streams the 2-safety 'same seed => same tree' holds by construction of the stubs, so a solver verdict would be vacuous.",
     "C19": "The property is the behaviour of dill (reduction protocol, closures, C-level pickling of cma/scipy objects) on the live object graph; it cannot be executed symbolically or encoded, and nothing of pyhms' own logic lies between pickle_dump and dill.dump.",
